@@ -113,7 +113,11 @@ FIRST_EQ = FIRST_GUARD.replace("""                if (
                 rule.trigger(implication)
                 activated = activated + 1
 """)
-equivalent("c08-eq-first-demorgan-continue", "C08", (A, FIRST_GUARD, FIRST_EQ))
+# De Morgan with the comparisons *flipped* (`<= 0 or threshold > degree`) is not the same program: a NaN degree fails every comparison, so the original does not
+# select it and this one does. Registered as an equivalent until A-sem got NaN degrees (round 11), which report it - a mutant. The NaN-preserving form is the equivalent.
+mutant("c08-first-demorgan-flipped-comparisons-select-nan", "C08", (A, FIRST_GUARD, FIRST_EQ), "A-sem/First.activate/selection")
+equivalent("c08-eq-first-demorgan-continue", "C08", (A, FIRST_GUARD, FIRST_EQ.replace("if activation_degree <= 0.0 or self.threshold > activation_degree:",
+                                                                                   "if not (activation_degree > 0.0) or not (activation_degree >= self.threshold):")))
 LOWEST_LOOP = """        for index, rule in enumerate(rule_block.rules):
             rule.deactivate()
             if rule.is_loaded():
@@ -299,7 +303,7 @@ mutant("c20-restore-new-value", "C20", (L, CTX, CTX.replace("setattr(self, key, 
 mutant("c20-no-contextmanager", "C20", (L, "    @contextmanager\n    def context(", "    def context("), "Y1/")
 mutant("c20-param-without-attribute", "C20", (L, """        if "factory_manager" in context_settings:
             context_settings["_factory_manager"] = context_settings.pop("factory_manager")
-""", ""), "Y5/Settings.context/factory_manager")
+""", ""), "Y-sem/Settings.context/protocol")  # the parameter reaches the attribute through its property; leaving the context then fails on the snapshot key
 mutant("c20-module-level-decimals", "C20", (O, "class Operation:", "DECIMALS = settings.decimals\n\n\nclass Operation:"), "Y6/")
 mutant("c20-default-arg-atol", "C20", (O, "    def is_close(a: Scalar, b: Scalar) -> bool | Array[np.bool_]:", "    def is_close(a: Scalar, b: Scalar, atol: float = settings.atol) -> bool | Array[np.bool_]:"), "Y6/")
 mutant("c20-str-frozen-decimals", "C20", [(O, "class Operation:", "_D = 3\n\n\nclass Operation:"), (O, """        if isinstance(x, (float, np.floating)):
